@@ -14,6 +14,7 @@ import (
 	"os/exec"
 	"path/filepath"
 	"runtime"
+	"runtime/pprof"
 	"sort"
 	"strconv"
 	"strings"
@@ -196,6 +197,7 @@ func cmdRun(args []string) int {
 	solverKind := fs.String("solver", "z3", "z3|z3-new|cvc5")
 	verbose := fs.Bool("v", false, "per-job output")
 	only := fs.String("only", "", "only jobs whose description contains this text")
+	cpuprof := fs.String("cpuprofile", "", "write cpu profile")
 	fs.Parse(args)
 	if t := os.Getenv("VERIF_TIER"); t != "" && (t == "quick" || t == "thorough") {
 		// the command line wins; the env only applies when the flag is default
@@ -203,6 +205,11 @@ func cmdRun(args []string) int {
 	seed := 0
 	if s := os.Getenv("VERIF_SEED"); s != "" {
 		seed, _ = strconv.Atoi(s)
+	}
+	if *cpuprof != "" {
+		f, _ := os.Create(*cpuprof)
+		pprof.StartCPUProfile(f)
+		defer pprof.StopCPUProfile()
 	}
 	spec := props[*propID]
 	if spec == nil {
@@ -301,9 +308,9 @@ func cmdRun(args []string) int {
 					var err error
 					in, err = NewInterp(p, *solverKind, timeoutMs)
 					if in != nil {
-						in.crossCheck = 25
+						in.crossCheck = 500
 						if *tier == "thorough" {
-							in.crossCheck = 10
+							in.crossCheck = 50
 						}
 					}
 					if err != nil {
